@@ -169,14 +169,18 @@ def finish(prop, tier, seed, t0, out, violations, known, level, rule, invariants
 
 
 def tree_check(work, prop, tier, seed, t0, stages, invariants, model_invs, rule, model_props=None, assumptions=None,
-               extra_cov=None, level="model_checking"):
+               extra_cov=None, level="model_checking", drift=False):
     drive = build_harness(work)
     out = tree_pipeline(work, prop, stages, invariants, seed, model_invs=model_invs, model_props=model_props, drive=drive)
-    if out.model_violation:
-        # the model with default switches describes the repaired tree; if it breaks its own invariants the
-        # model or its configuration is wrong: never a verdict about the code
-        raise Infra("model %s violates %s with default switches:\n%s" % out.model_violation)
     violations, known = handle_violations(work, drive, prop, out, invariants)
+    if out.model_violation and not violations:
+        # the model with default switches describes the repaired tree; if it breaks its own invariants while every
+        # real execution satisfies the property, the model or its configuration is wrong: never a verdict about the code
+        raise Infra("model %s violates %s with default switches although all traces validate:\n%s" % out.model_violation)
+    if drift and not violations:
+        # conformance of the L1 model itself to the real structure (size classes, inline bytes): informative
+        extra_cov = dict(extra_cov or {})
+        extra_cov["model_drift_L1_vs_real_dumps"] = measure_drift(work, out.trace_files)
     finish(prop, tier, seed, t0, out, violations, known, level, rule, invariants, extra_cov, assumptions)
     if violations:
         return 1
@@ -209,6 +213,24 @@ def std_stages(tier, seed, battery, closed=("split", "long"), kinds_random=None,
                         invs=["SizeOK", "AllOK"], every=False))
         st.append(Stage("sim", "alpha/string", "fan2", size, battery, num=(2 if q else 8), depth=(200 if q else 400), ramp=True,
                         invs=["SearchOK", "SizeOK", "AllOK", "WFOK"], every=False))
+        # 256-class node below a compressed path, with the terminator child (alpha) / fixed high bytes (numeric)
+        st.append(Stage("sim", "alpha/bytes", "fan1x", size, battery, num=(1 if q else 6), depth=(600 if q else 1200), ramp=True,
+                        invs=["SizeOK", "AllOK"], every=False))
+        st.append(Stage("sim", "uint32", "fanp", size, battery, num=(1 if q else 6), depth=(600 if q else 1200), ramp=True,
+                        invs=["SizeOK", "AllOK"], every=False))
+        # a wide (256-slot class) node with later siblings
+        st.append(Stage("sim", "alpha/string", "fanw", size, battery, num=(2 if q else 8), depth=(260 if q else 500), ramp=True,
+                        invs=["SizeOK", "AllOK", "WFOK"], every=False, batevery=4))
+        # short cycles through the 4- and 16-slot capacities with extreme-key churn
+        st.append(Stage("sim", "uint8", "fan18", size, battery, num=(3 if q else 12), depth=(300 if q else 600), ramp=True,
+                        invs=["SearchOK", "SizeOK", "AllOK", "MinMaxOK", "WFOK"], every=False, batevery=1))
+        st.append(Stage("sim", "alpha/string", "fan18", size, battery, num=(2 if q else 8), depth=(300 if q else 600), ramp=True,
+                        invs=["SearchOK", "SizeOK", "AllOK", "MinMaxOK", "WFOK"], every=False, batevery=1))
+        # 4/16/48-class node holding the boundary bytes
+        st.append(Stage("sim", "int8", "fanb", size, battery, num=(2 if q else 8), depth=(200 if q else 400), ramp=True,
+                        invs=["SearchOK", "SizeOK", "AllOK", "WFOK"], every=False, batevery=6))
+        st.append(Stage("sim", "alpha/string", "fanb", size, battery, num=(2 if q else 8), depth=(200 if q else 400), ramp=True,
+                        invs=["SearchOK", "SizeOK", "AllOK", "WFOK"], every=False, batevery=6))
     kr = kinds_random if kinds_random is not None else SIMPLE_KINDS
     n = rnd_n or (4 if q else 30)
     ln = rnd_len or (50 if q else 120)
@@ -234,12 +256,20 @@ def coll_stages(tier, battery, n=None, ln=None):
     for k in kinds:
         st.append(Stage("random", k, "text", "q" if q else "t", battery, n=n or (3 if q else 12), len=ln or (60 if q else 150),
                         batevery=(3 if q else 2)))
+    # a fan of > 16 children in the sort-key space (48-slot class in the hand-written copy)
+    st.append(Stage("sim", "collation/string/und", "han", "q", battery, num=(2 if q else 8), depth=(220 if q else 440), ramp=True,
+                    invs=["SizeOK", "AllOK", "WFOK"], every=False, batevery=3))
+    st.append(Stage("random", "collation/bytes/und", "han", "q", battery, n=(2 if q else 10), len=(120 if q else 200), batevery=3))
     return st
 
 
 def comp_stages(tier, seed, battery, n=None, ln=None):
     q = tier == "quick"
     st = []
+    # a 256-way root in a compound tree (first field int8/uint8: 0xFF and 0x00 branches included)
+    for s in (["compound/i8+u16"] if q else ["compound/i8+u16", "compound/u8+str", "compound/u8+f32"]):
+        st.append(Stage("sim", s, "tuplefan", "q", battery, num=(1 if q else 4), depth=(600 if q else 1200), ramp=True,
+                        invs=["SizeOK", "AllOK"], every=False))
     schemas = rand_schemas(seed, 4 if q else 20)
     for i, s in enumerate(schemas):
         if i < (1 if q else 4):
@@ -277,6 +307,9 @@ def check_C03(work, prop, tier, seed, t0):
     # Range on an empty tree, every bound pair
     stages.append(Stage("random", "alpha/string", "range", "q", "range=-1", n=1, len=0))
     stages.append(Stage("random", "float64", "random", "q", "range=-1", n=1, len=0))
+    # bounds passed as caller-owned byte slices: adjacent fields of one record, sub-slices with spare capacity, scanner buffer
+    for u in ("range", "random"):
+        stages.append(Stage("arena", "alpha/bytes", u, "q", "range=%d" % (14 if q else 40), n=(4 if q else 16), len=(40 if q else 90)))
     return tree_check(work, prop, tier, seed, t0, stages, PROP_INVS[prop], ["RangeOK"], RULE_TREE, model_props=[])
 
 
@@ -291,6 +324,7 @@ def check_C04(work, prop, tier, seed, t0):
           Stage("sim", "alpha/bytes", "fan2", size, "prefix=-1", num=(2 if q else 8), depth=(200 if q else 400), ramp=True,
                 invs=["SizeOK"], every=False),
           Stage("model", "collation/string/und", "textq", "q", bat)]
+    st.append(Stage("arena", "alpha/bytes", "prefix", "q", "prefix=6", n=(3 if q else 12), len=(40 if q else 90)))
     for k in ["alpha/string", "alpha/bytes"]:
         st.append(Stage("random", k, "random", size, bat, n=(6 if q else 40), len=(50 if q else 120), batevery=2))
         st.append(Stage("random", k, "prefix", size, bat, n=(4 if q else 20), len=(40 if q else 100), batevery=2))
@@ -319,7 +353,7 @@ def check_C11(work, prop, tier, seed, t0):
     extra = coll_stages(tier, bat) + comp_stages(tier, seed, bat)
     stages = std_stages(tier, seed, bat, extra=extra)
     return tree_check(work, prop, tier, seed, t0, stages, PROP_INVS[prop],
-                      ["WFOK", "ShapeOK", "LeavesOK", "NormalOK", "SizeOK"], RULE_TREE, model_props=[])
+                      ["WFOK", "ShapeOK", "LeavesOK", "NormalOK", "SizeOK"], RULE_TREE, model_props=[], drift=True)
 
 
 def check_C14(work, prop, tier, seed, t0):
@@ -509,6 +543,8 @@ def check_C07(work, prop, tier, seed, t0):
         raise Infra("Codec model: %s %s" % (r.violation, r.error or r.out_tail))
     model_runs = [{"stage": "model:Codec", "checked": "all pairs of u8, i8, f8 (1-4-3 minifloat); all adjacent pairs of u16, i16",
                    "states": r.states, "transitions": r.transitions, "wall_s": round(r.wall, 1)}]
+    # (a') the design over the integers, for every width: TLAPS proof of CodecInt (order isomorphism, round trip)
+    model_runs.append(tlaps_codecint(work))
     # (b) the real Transform/Restore
     variants = [("amd64", drive)] + ([] if q else [("386", build_harness(work, "386"))])
     files, recs, lines, batches, samples = [], 0, 0, 0, []
@@ -571,6 +607,27 @@ def check_C07(work, prop, tier, seed, t0):
         return 1
     print("%s held: design exhaustive for 8-bit types (TLC), %d real records in %d batches validated" % (prop, recs, batches), flush=True)
     return 0
+
+
+def tlaps_codecint(work):
+    """Machine-checked proof that the design is an order isomorphism for every width. Informative for C07
+    (the verdict about the CODE comes from the traces); a failure of the prover is reported, not fatal."""
+    import subprocess, re
+    t1 = time.time()
+    d = work.path("tlaps")
+    os.makedirs(d, exist_ok=True)
+    shutil.copy(os.path.join(work.specdir, "CodecInt.tla"), d)
+    try:
+        p = subprocess.run(["tlapm", "--threads", "8", "CodecInt.tla"], cwd=d, capture_output=True, text=True, timeout=600)
+        out = p.stdout + p.stderr
+        m = re.search(r"All (\d+) obligations? proved", out)
+        if m:
+            return {"stage": "proof:CodecInt (tlapm)", "obligations": int(m.group(1)), "discharged": int(m.group(1)),
+                    "theorems": ["SignedIso", "FloatIso", "SpecialsOutside", "FloatRoundTrip"], "wall_s": round(time.time() - t1, 1)}
+        m = re.search(r"(\d+)/(\d+) obligations? failed", out)
+        return {"stage": "proof:CodecInt (tlapm)", "result": "not all obligations proved", "tail": out[-300:], "wall_s": round(time.time() - t1, 1)}
+    except Exception as e:
+        return {"stage": "proof:CodecInt (tlapm)", "result": "prover did not run: %s" % e}
 
 
 def confirm_codec(work, drive, path):
